@@ -100,6 +100,8 @@ def run(ctx):
             text[c["id"]] = "%s %s %s" % (c["xt"], c["op"], c["yt"])
         else:
             text[c["id"]] = "between(%d,%d,%s)" % (c["l"], c["h"], c["x"] if c["xbound"] else "X")
+        if o.get("skip"):
+            continue
         if o.get("crash"):
             ctx.violation({"clause": "crash", "error": o.get("error", ""), "site": o.get("site", ""),
                            "functor": functor_of(c, exprs, cmps, off)},
@@ -197,6 +199,8 @@ def run_inspect(ctx):
         o = outs[i]
         ctx.evaluations += 1
         name = T.txt(g["c"]) + "/%d" % len(g["a"])
+        if o.get("skip"):
+            continue
         if o.get("crash"):
             ctx.violation({"clause": "crash", "error": o.get("error", ""), "site": o.get("site", ""), "functor": name},
                           "?- %s : %s" % (T.render(g), o["crash"]), {"goal": g})
